@@ -346,3 +346,15 @@ Proof.
   { intros d. rewrite (gdot_normal m D sol d HL). rewrite (dot_veq _ _ d d E (veq_refl d)). ring. }
   split; [exact L|]. split; [exact G|]. apply gradient_zero_optimal; assumption.
 Qed.
+
+(* ------------------------------------------------------------------ reduced variants compute the same numbers *)
+Lemma dotr_correct u : forall v, dotr u v == dot u v.
+Proof.
+  induction u as [|a u IH]; intros [|b v]; try reflexivity.
+  cbn [dotr dot]. rewrite Qred_correct, IH. reflexivity.
+Qed.
+Lemma chi2r_correct D x : chi2r D x == chi2 D x.
+Proof.
+  induction D as [|[[r w] y] D IH]; [reflexivity|].
+  cbn [chi2r chi2 resid]. rewrite Qred_correct, IH, dotr_correct. reflexivity.
+Qed.
